@@ -1,0 +1,12 @@
+//go:build verif
+
+package rpc
+
+import "reduction.dev/reduction/workers/operator"
+
+// VerifOperatorConnectHandler returns the connect handler value itself (not the
+// http.Handler wrapping it) so the verification harness (/verif, property C02)
+// can call HandleEventBatch with a connect.Request directly. Compiled only with -tags verif.
+func VerifOperatorConnectHandler(op *operator.Operator) *OperatorConnectHandler {
+	return &OperatorConnectHandler{operator: op}
+}
